@@ -105,6 +105,9 @@ type doc struct {
 	nest func(d int) string
 	// for AllowTrailing / resumption: statements of a one-statement-per-parse grammar
 	stmts []string
+	// the last statement explicitly matches every trailing elided token: afterwards the caller's
+	// lexer must be at EOF in raw terms too
+	stmtsRawEOF bool
 }
 
 func flatDoc(name, prefix, unit, suffix string) doc {
@@ -321,6 +324,7 @@ var worldExpr = &world{
 			stmts: []string{"let x = 1 + 2 * (3 - y);", "f(x, g(1, \"two\"), -3.5);", "let é = \"ünï\" + x;"}},
 		{name: "tight-minus", valid: true, text: "let d = x-y-1;\nfoo-bar(a-b);\n"},
 		{name: "calls", valid: true, text: "a();b(c());d(e, f(g(h)));\n", stmts: []string{"a();", "b(c());", "d(e, f(g(h)));"}},
+		{name: "doc-comments", valid: true, text: "// lead\na(); /* c */ b();\n", stmts: []string{"a();", "/* c */ b();", "// x\n// y\nlet v = 1;", "// the last chunk is comments only\n/* and another */"}, stmtsRawEOF: true},
 		{name: "raw-where", valid: true, text: "raw a + ( b 1.5 \"s\";\nlet v = x * 2 where v > 0;\nraw z;", stmts: []string{"raw a + ( b 1.5 \"s\";", "let v = x * 2 where v > 0;", "raw z;"}},
 		{name: "commented", valid: true, text: "/* lead */ raw a /* mid */ b // tail\n;\nlet v = /* c */ 1 where /* d */ v > 0; // end\nf( /* no args */ ); // last"},
 		{name: "raw-elided-tail", valid: false, text: "raw a b // no terminator"},
@@ -344,9 +348,12 @@ var worldExpr = &world{
 	},
 }
 
+// exOneStmt: leading comments are matched explicitly (they are elided otherwise); a chunk may
+// consist of comments only.
 type exOneStmt struct {
 	Pos  lexer.Position
-	Stmt *exStmt `@@ ";"`
+	Doc  []string `@Comment*`
+	Stmt *exStmt  `( @@ ";" )?`
 }
 
 // ---------------------------------------------------------------------------------------------
